@@ -223,7 +223,7 @@ def check_modified_small_cases(prog, ctx, cw):
     cases = {}
     for n in c.nodes:
         if n.kind == "stmt" and isinstance(n.ast, ast.Assign) and isinstance(n.ast.targets[0], ast.Subscript) and n.idx in c.reachable():
-            guards = [gd for (gd, gn) in R.dominating_guards(cw, n, tm) if gn.kind == "test"]
+            guards = [R.resolve_locals(cw, gd, gn, tm) for (gd, gn) in R.dominating_guards(cw, n, tm) if gn.kind == "test"]   # `n = len(grid)` looked through
             size = None
             for gd in guards:
                 if gd[0] == "cmp" and gd[1] == "Eq" and ("call", ("n", "len"), (("n", pts),), ()) in (gd[2], gd[3]):
